@@ -57,6 +57,10 @@ structure DState where
   st : Option State := none
   shadow : Shadow := ⟨[], []⟩
   feeTracked : Bool := true         -- history began with instantiate or a fee-exact seed
+  -- an accepted request of this history computed a product that needs more than 96 bits (finding
+  -- F6): the theorems' magnitude hypothesis fails from here on, and what follows in this history is
+  -- the same finding – only the model/implementation comparison is kept
+  tainted : Bool := false
   lastMig : Option MigMsg := none
   -- role lists as the accepted configuration requests left them (C05 is judged against
   -- these too, so a configuration change that silently fails to revoke a role is seen)
@@ -206,6 +210,23 @@ def carriedKeys (s : State) : List String :=
   if inWindow s then
     s.bids.filterMap fun kv => match kv.2 with | .v2 _ => some kv.1 | .v3 _ => none
   else []
+
+/-- the magnitude hypothesis (`ExactStep`, and `exactMul` at bid entry) of one request -/
+def exactStepB (s : State) (m : ExecMsg) : Bool :=
+  match m with
+  | .executeMatch _ b p sz =>
+    (match loadBid s b, Dec.parse p with
+     | some bb, some pp =>
+       exactMul pp sz && (match Dec.parse bb.price with | some bp => exactMul bp sz | none => false) &&
+       (match s.info.askFee with
+        | some fi => (match Dec.parse fi.rate with | some r => exactMul r (product pp sz) | none => true)
+        | none => true)
+     | _, _ => false)
+  | .createBid _ _ _ price _ qs size =>
+    (match Dec.parse price, bidRate s.info with
+     | some p, some rate => exactMul p size && exactMul rate qs
+     | _, _ => false)
+  | _ => true
 
 /-- oracles for one accepted execute step on the implementation's data -/
 def judgeAccepted (env : Env) (s : State) (c : Call) (r : Response) (s' : State) (feeTracked : Bool)
@@ -411,7 +432,7 @@ def judge (d : DState) : Verdict × DState :=
         | .err e =>
           if implOk then v.diff ("accept:model-err/impl-ok:" ++ e.name) (acceptProps c.msg ++ (if isProbe then ["C06"] else []))
           else v
-      let v := if implOk then
+      let v := if d.tainted then v else if implOk then
           let v := judgeAccepted env s c implResp s' d.feeTracked v
           let v := match d.roles with
             | some (aps, exs) =>
@@ -431,10 +452,10 @@ def judge (d : DState) : Verdict × DState :=
           if implOk && !isProbe then some (ap.getD aps, ex.getD exs) else d.roles
         | r, _ => r
       let sh' := if implOk && !isProbe then shadowStep d.shadow implResp.attrs else d.shadow
-      let v := if implOk && !isProbe then v.check "C17" "C17_shadowOK" (C17_shadowOK sh' s') else v
+      let v := if implOk && !isProbe && !d.tainted then v.check "C17" "C17_shadowOK" (C17_shadowOK sh' s') else v
       if noAdvance then (v, d)
       else (v, { d with st := some s', shadow := sh', lastMig := if implOk then none else d.lastMig,
-                        roles := roles' })
+                        roles := roles', tainted := d.tainted || (implOk && !exactStepB s c.msg) })
   | .mig m =>
     match d.st with
     | none => ({}, d)
